@@ -1163,7 +1163,7 @@ fn draw_source(rng: &mut Rng, len: usize, valid_utf8: bool, faults: u32) -> Sour
                     3..=5 => ReadFaultKind::Hard(*rng.pick(&[Kind::WouldBlock, Kind::TimedOut])),
                     _ => ReadFaultKind::Hard(*rng.pick(&KINDS)),
                 };
-                plan.faults.push(ReadFault { at, kind, sticky: rng.chance(1, 4), id: 300 + u64::from(n) });
+                plan.faults.push(ReadFault { at, kind, sticky: rng.chance(1, 4), id: 300 + u64::from(n), payload: payload_for(rng.usize_below(8)) });
             }
             Source::Stream(plan)
         }
@@ -1519,7 +1519,7 @@ pub fn c17_run(seed: u64, i: u64, _tier: Tier, mon: &mut Mon, found: &mut Vec<Fo
         for n in 0..nf {
             let at = if !inside.is_empty() && rng.chance(3, 4) { *rng.pick(&inside) } else { rng.usize_below(input.len() + 1) };
             let kind = if rng.chance(1, 3) { ReadFaultKind::Eof } else { ReadFaultKind::Hard(*rng.pick(&[Kind::WouldBlock, Kind::TimedOut, Kind::ConnectionReset])) };
-            plan.faults.push(ReadFault { at, kind, sticky: rng.chance(1, 5), id: 400 + n });
+            plan.faults.push(ReadFault { at, kind, sticky: rng.chance(1, 5), id: 400 + n, payload: payload_for(rng.usize_below(8)) });
         }
         if !inside.is_empty() && rng.chance(1, 2) {
             // chunk boundary inside a sequence
